@@ -82,6 +82,7 @@ type c17Data struct {
 	Reconf      *c17Reconf        `json:"reconfigured,omitempty"`
 	Home        string            `json:"home"`
 	Second      int               `json:"second_logger_lines,omitempty"`
+	SecondFirst bool              `json:"second_logger_constructed_concurrently,omitempty"`
 	InitDirs    []string          `json:"initial_dirs,omitempty"`
 	Sibling     string            `json:"sibling_file,omitempty"`
 	SiblingGone bool              `json:"sibling_removed,omitempty"`
@@ -244,7 +245,24 @@ func c17Body(rc *RunCtx) {
 		d.InitNames = append(d.InitNames, k)
 	}
 	sort.Strings(d.InitNames)
+	// a second logger with another object name in the same home directory (same id); in half
+	// of these runs it is constructed at the same time as the first one (both may find logs/
+	// missing and try to create it)
+	second := simrt.ChanceF(1, 5)
+	var lg2 *logfile.FileLogger
+	var lg2Task *simrt.Task
+	mk2 := func() {
+		lg2 = logfile.NewFileLogger(logfile.WithHomePath(c17Home), logfile.WithOnameLogID("second", d.LogID), logfile.WithLevel(0))
+	}
+	if second && simrt.ChanceF(1, 2) {
+		lg2Task = simrt.GoNamed("construct-second", mk2)
+	}
 	lg := logfile.NewFileLogger(opts...)
+	if lg2Task != nil {
+		simrt.Join(lg2Task)
+		lg2.Error("SECONDFIRST", "tk2-first") // straight after its constructor returned
+		d.SecondFirst = true
+	}
 	if simrt.ChanceF(1, 5) {
 		// fault: from now on an open for append of a log file may fail (descriptor table full,
 		// disk full, permission lost), at most twice per run. The logger then has no new file
@@ -371,8 +389,10 @@ func c17Body(rc *RunCtx) {
 	}
 	// a second logger with another object name in the same home directory (same id): its
 	// lines belong in its own files, and the first logger's in theirs
-	if simrt.ChanceF(1, 5) {
-		lg2 := logfile.NewFileLogger(logfile.WithHomePath(c17Home), logfile.WithOnameLogID("second", d.LogID), logfile.WithLevel(0))
+	if second {
+		if lg2 == nil {
+			mk2()
+		}
 		// both loggers prune by the shared id prefix: give the second one the first one's
 		// retention settings so that what must stay and what must go is the same for both
 		lg2.ApplyConfig(&stubConf{m: map[string]string{
@@ -744,8 +764,14 @@ func c17After(rc *RunCtx, res *simrt.Result) {
 		}
 	}
 	// the second logger's lines: each exactly once, in a file carrying its object name
-	for i := 0; i < d.Second; i++ {
+	for i := -1; i < d.Second; i++ {
 		tok := fmt.Sprintf("tk2-%04d", i)
+		if i < 0 {
+			if !d.SecondFirst {
+				continue
+			}
+			tok = "tk2-first"
+		}
 		n, where := 0, ""
 		for _, name := range finalNames {
 			if c := strings.Count(all[name], tok); c > 0 {
